@@ -139,6 +139,19 @@ def scan_wiring(repo):
             decisive = beh.startswith("UnknownFieldsBehavior") and re.match(r"impl_deserialize_body!\((.*),ValueBehavior\);?$", t) is not None
             return False, "%s instantiates impl_deserialize_body! with %s, expected behaviour %s" % (f, t, beh), decisive
         out.append("%s: %s" % (f, beh))
+        # the free entry functions ({server,client}_from_{reader,str,slice,mut_slice}) build this file's own deserializer
+        own, other = ("ServerDeserializer", "ClientDeserializer") if "/server.rs" in f else ("ClientDeserializer", "ServerDeserializer")
+        pre = "server_from_" if own == "ServerDeserializer" else "client_from_"
+        fns = [it for it in doc["items"] if it["kind"] == "fn" and it.get("name", "").startswith(pre) and it["key"].startswith("fn ")]
+        if not fns:
+            raise Undecided("%s: no %s* entry functions found" % (f, pre))
+        for it in fns:
+            body = re.sub(r"\s+", "", text(doc, it["body_start"], it["body_end"]))
+            if re.search(r"\b%s\b" % other, body):
+                return False, "%s: %s constructs %s, expected %s" % (f, it["key"], other, own), True
+            if not re.search(r"\b%s::from_\w+\(" % own, body):
+                raise Undecided("%s: %s does not construct %s directly" % (f, it["key"], own))
+        out.append("%s: %d entry functions build %s" % (f, len(fns), own))
     return True, "; ".join(out)
 
 SCANS = [dict(name="C05.S.entry_wiring", fn=scan_wiring, desc="syntactic: server deserializers use UnknownFieldsBehavior<ValueBehavior>, client ones ValueBehavior")]
@@ -156,6 +169,8 @@ MUTANTS = [
          expect=["C05.K.de.frame.deserialize_struct"]),
     dict(name="map_values_lose_behavior", file=DE, **{"from": "self.inner.next_value_seed(Override::<_, B>::new(seed))", "to": "self.inner.next_value_seed(seed)"},
          expect=["C05.K.de.access.map", "C05.K.de.visit.map"]),
+    dict(name="smile_server_reader_builds_client_deserializer", file="conjure-serde/src/smile/de/server.rs", **{"from": "    let mut de = ServerDeserializer::from_reader(reader);", "to": "    let mut de = crate::smile::de::client::ClientDeserializer::from_reader(reader);"},
+         expect=["C05.S.entry_wiring"]),
     dict(name="server_uses_client_behavior", file="conjure-serde/src/json/de/server.rs", **{"from": "        UnknownFieldsBehavior<ValueBehavior>\n    );", "to": "        ValueBehavior\n    );"},
          expect=["C05.S.entry_wiring"]),
 ]
